@@ -107,6 +107,12 @@ theorem undoN_replicate (n : Nat) (s : St) :
 theorem callHandler_eq (h : Nat) (rule : Bool → Bool) (body : List Act) (k : KSt) :
     callHandler h rule body k = { st := body.foldl act (boundary rule h k), prev := some h } := rfl
 
+theorem callHandlerO_eq (o : Outcome) (h : Nat) (rule : Bool → Bool) (body : List Act) (k : KSt) :
+    callHandlerO o h rule body k = { st := body.foldl act (boundary rule h k), prev := prevAfter o h } := rfl
+
+theorem callHandlerO_ok (h : Nat) (rule : Bool → Bool) (body : List Act) (k : KSt) :
+    callHandlerO .ok h rule body k = callHandler h rule body k := rfl
+
 theorem boundary_buf (rule : Bool → Bool) (h : Nat) (k : KSt) : (boundary rule h k).buf = k.st.buf := by
   unfold boundary; split <;> simp [saveToUndo_buf]
 
@@ -116,10 +122,36 @@ theorem body_run (b : Body) (s : St) : b.acts.foldl act s = b.run s := by
   | undo n post => simp [Body.acts, Body.run, List.foldl_append, undoN_replicate, act]
   | redo post => simp [Body.acts, Body.run, act]
   | save c => rfl
+  | reset d => rfl
+  | roUndo fx post => simp [Body.acts, Body.run, act]
+  | roRedo fx => rfl
 
-theorem stepK_eq (rule : Nat → Bool → Bool) (k : KSt) (c : Cmd) :
-    stepK rule k c = { st := c.body.run (boundary (rule c.h) c.h k), prev := some c.h } := by
-  simp [stepK, callHandler_eq, body_run]
+theorem stepK_eq (k : KSt) (c : Cmd) :
+    stepK k c = { st := c.body.run (boundary c.rule c.h k), prev := prevAfter c.out c.h } := by
+  simp [stepK, callHandlerO_eq, body_run]
+
+theorem runI_cmds (cs : List Cmd) (k : KSt) : runI (cmdsI cs) k = runK cs k := by
+  induction cs generalizing k with
+  | nil => rfl
+  | cons c cs ih => simp only [cmdsI, List.map_cons, runI, runK, List.foldl_cons] at *; exact ih _
+
+theorem runI_append (a b : List Item) (k : KSt) : runI (a ++ b) k = runI b (runI a k) := by
+  simp [runI, List.foldl_append]
+
+/-! ### read-only undo / redo -/
+
+theorem undoRO_fixed (s : St) : undoRO true s = s := rfl
+theorem redoRO_fixed (s : St) : redoRO true s = s := rfl
+
+theorem undoRO_buf (fx : Bool) (s : St) : (undoRO fx s).buf = s.buf := by
+  unfold undoRO; split
+  · rfl
+  · split <;> rfl
+
+theorem redoRO_buf (fx : Bool) (s : St) : (redoRO fx s).buf = s.buf := by
+  unfold redoRO; split
+  · rfl
+  · split <;> rfl
 
 /-! ### the log invariant -/
 
@@ -145,6 +177,23 @@ theorem mid_undoN {L : List Buf} (n : Nat) {s : St} (h : Mid L s) : Mid L (undoN
   | zero => exact h
   | succ n ih => exact ih (mid_undo h)
 
+/-- a read-only undo (shipped or fixed) keeps the invariant: what it leaves on the stacks was really held -/
+theorem mid_undoRO {L : List Buf} (fx : Bool) {s : St} (h : Mid L s) : Mid L (undoRO fx s) := by
+  obtain ⟨hU, hR, hB⟩ := h
+  unfold undoRO
+  split
+  · exact ⟨hU, hR, hB⟩
+  · cases hl : undoLoop s.buf s.undo with
+    | none => exact ⟨by simp, hR, hB⟩
+    | some p =>
+      obtain ⟨t, rest⟩ := p
+      have hs := undoLoop_sublist hl
+      refine ⟨((List.sublist_cons_self t rest).trans hs).trans hU, ?_, hB⟩
+      intro r hr
+      rcases List.mem_cons.mp hr with rfl | hr
+      · exact hB
+      · exact hR r hr
+
 theorem boundary_mid (rule : Bool → Bool) (h : Nat) (g : G) (hI : Inv g) :
     let s1 := boundary rule h g.k
     s1.undo.Sublist (g.k.st.buf :: g.log) ∧ (∀ r ∈ s1.redo, r ∈ g.k.st.buf :: g.log) ∧
@@ -161,11 +210,11 @@ theorem boundary_mid (rule : Bool → Bool) (h : Nat) (g : G) (hI : Inv g) :
     · simp [saveToUndo_redo]
     · intro r hr; exact List.mem_cons_of_mem _ (hR r hr)
 
-theorem inv_step (rule : Nat → Bool → Bool) (g : G) (c : Cmd) (hI : Inv g) : Inv (stepG rule g c) := by
-  obtain ⟨h1, h2, h3⟩ := boundary_mid (rule c.h) c.h g hI
+theorem inv_step_cmd (g : G) (c : Cmd) (hI : Inv g) : Inv (stepG g (.cmd c)) := by
+  obtain ⟨h1, h2, h3⟩ := boundary_mid c.rule c.h g hI
   unfold Inv stepG
-  simp only [stepK_eq]
-  generalize boundary (rule c.h) c.h g.k = s1 at h1 h2 h3
+  simp only [stepI, stepK_eq]
+  generalize boundary c.rule c.h g.k = s1 at h1 h2 h3
   cases hb : c.body with
   | edit f => exact ⟨h1, h2⟩
   | undo n post =>
@@ -190,21 +239,43 @@ theorem inv_step (rule : Nat → Bool → Bool) (g : G) (c : Cmd) (hI : Inv g) :
     · rw [saveToUndo_redo]; split
       · simp
       · exact h2
+  | reset d => simp [Body.run, reset]
+  | roUndo fx post =>
+    have hm : Mid (g.k.st.buf :: g.log) s1 := ⟨h1, h2, by rw [h3]; simp⟩
+    have := mid_undoRO fx hm
+    exact ⟨this.1, this.2.1⟩
+  | roRedo fx =>
+    simp only [Body.run]
+    unfold redoRO
+    split
+    · exact ⟨h1, h2⟩
+    · cases hr : s1.redo with
+      | nil => exact ⟨h1, by simp [hr]⟩
+      | cons r rest =>
+        refine ⟨?_, ?_⟩
+        · have := saveToUndo_sublist false s1 g.log (by rw [h3]; exact h1)
+          rw [h3] at this; exact this
+        · intro x hx; exact h2 x (by rw [hr]; exact List.mem_cons_of_mem _ hx)
 
-theorem inv_run (rule : Nat → Bool → Bool) (cmds : List Cmd) (g : G) (hI : Inv g) :
-    Inv (runG rule cmds g) := by
-  induction cmds generalizing g with
+theorem inv_step (g : G) (it : Item) (hI : Inv g) : Inv (stepG g it) := by
+  cases it with
+  | cmd c => exact inv_step_cmd g c hI
+  | kpReset => exact hI
+  | cpr => exact hI
+  | ext f => exact hI
+
+theorem inv_run (items : List Item) (g : G) (hI : Inv g) : Inv (runG items g) := by
+  induction items generalizing g with
   | nil => exact hI
-  | cons c cs ih => exact ih _ (inv_step rule g c hI)
+  | cons c cs ih => exact ih _ (inv_step g c hI)
 
 theorem inv_init (b0 : Buf) : Inv (gInit b0) := by
   simp [Inv, gInit, kInit, reset]
 
-theorem runG_k (rule : Nat → Bool → Bool) (cmds : List Cmd) (g : G) :
-    (runG rule cmds g).k = runK rule cmds g.k := by
-  induction cmds generalizing g with
+theorem runG_k (items : List Item) (g : G) : (runG items g).k = runI items g.k := by
+  induction items generalizing g with
   | nil => rfl
-  | cons c cs ih => simp [runG, runK, List.foldl_cons] at *; exact ih _
+  | cons c cs ih => simp [runG, runI, List.foldl_cons] at *; exact ih _
 
 theorem undoTrace_some {n : Nat} {s : St} {t : Buf} {rest : List Buf}
     (hl : undoLoop s.buf s.undo = some (t, rest)) :
@@ -310,63 +381,149 @@ theorem botText_boundary (rule : Bool → Bool) (h : Nat) (k : KSt) :
   · exact botText_saveToUndo true k.st
   · rfl
 
-theorem sinv_step (rule : Nat → Bool → Bool) (isEditH : Nat → Bool) (t0 : Text) (k : KSt) (c : Cmd)
-    (hsaves : ∀ h, isEditH h = true → rule h false = true)
-    (hkind : c.body.isEdit = isEditH c.h) (hpost : c.body.PostKeepsText)
-    (hI : SInv isEditH t0 k) : SInv isEditH t0 (stepK rule k c) := by
-  obtain ⟨hb, hp⟩ := hI
+theorem botText_undoRO (s : St) : botText (undoRO true s) = botText s := rfl
+theorem botText_redoRO (s : St) : botText (redoRO true s) = botText s := rfl
+
+/-- **Theorem A, one step.**  A covered item keeps the text at the bottom of the undo stack. -/
+theorem botText_step (k : KSt) (it : Item) (hc : it.Covered k) : botText (stepI k it).st = botText k.st := by
+  cases it with
+  | kpReset => rfl
+  | cpr => rfl
+  | ext f =>
+    show botText { k.st with buf := f k.st.buf } = _
+    exact botText_setBuf _ _ hc
+  | cmd c =>
+    simp only [stepI, stepK_eq]
+    have hb1 : botText (boundary c.rule c.h k) = botText k.st := botText_boundary _ _ _
+    simp only [Item.Covered, Cmd.Covered] at hc
+    cases hbody : c.body with
+    | edit f =>
+      rw [hbody] at hc
+      simp only [Body.run]
+      rw [← hb1]
+      apply botText_setBuf
+      rcases hc with hs | ⟨hu, _⟩ | ht
+      · left
+        unfold boundary; rw [if_pos hs]
+        obtain ⟨rest, hr⟩ := saveToUndo_top true k.st
+        rw [hr]; simp
+      · left
+        unfold boundary; split
+        · obtain ⟨rest, hr⟩ := saveToUndo_top true k.st
+          rw [hr]; simp
+        · exact hu
+      · right; rw [boundary_buf]; exact ht
+    | undo n post =>
+      rw [hbody] at hc
+      simp only [Body.run]
+      rw [botText_setBuf _ _ (Or.inr (hc _)), botText_undoN]; exact hb1
+    | redo post =>
+      rw [hbody] at hc
+      simp only [Body.run]
+      rw [botText_setBuf _ _ (Or.inr (hc _)), botText_redo]; exact hb1
+    | save cl => simp only [Body.run]; rw [botText_saveToUndo]; exact hb1
+    | reset d => rw [hbody] at hc; exact absurd hc id
+    | roUndo fx post =>
+      rw [hbody] at hc
+      obtain ⟨rfl, hp⟩ := hc
+      simp only [Body.run]
+      rw [botText_setBuf _ _ (Or.inr (hp _)), botText_undoRO]; exact hb1
+    | roRedo fx =>
+      rw [hbody] at hc
+      subst hc
+      simp only [Body.run]; rw [botText_redoRO]; exact hb1
+
+theorem botText_run (items : List Item) (k : KSt) (hd : Disciplined items k) :
+    botText (runI items k).st = botText k.st := by
+  induction items generalizing k with
+  | nil => rfl
+  | cons it its ih =>
+    obtain ⟨h1, h2⟩ := hd
+    show botText (runI its (stepI k it)).st = _
+    rw [ih _ h2, botText_step k it h1]
+
+theorem pinv_step (isEditH : Nat → Bool) (k : KSt) (c : Cmd)
+    (hsaves : isEditH c.h = true → c.rule false = true)
+    (hkind : c.body.isEdit = isEditH c.h) (hI : PInv isEditH k) : PInv isEditH (stepK k c) := by
   rw [stepK_eq]
-  have hb1 : botText (boundary (rule c.h) c.h k) = t0 := by rw [botText_boundary]; exact hb
+  intro h hh hE
+  have hch : h = c.h := by
+    cases ho : c.out <;> simp [prevAfter, ho] at hh <;> exact hh.symm
+  subst hch
   cases hbody : c.body with
   | edit f =>
-    have hE : isEditH c.h = true := by rw [← hkind, hbody]; rfl
-    have hne : (boundary (rule c.h) c.h k).undo ≠ [] ∧ (boundary (rule c.h) c.h k).redo = [] := by
-      unfold boundary
-      by_cases hrep : k.prev = some c.h
-      · split
-        · obtain ⟨rest, hr⟩ := saveToUndo_top true k.st
-          exact ⟨by rw [hr]; simp, saveToUndo_true_redo k.st⟩
-        · exact hp c.h hrep hE
-      · have : rule c.h (decide (k.prev = some c.h)) = true := by simp [hrep, hsaves c.h hE]
-        rw [if_pos this]
-        obtain ⟨rest, hr⟩ := saveToUndo_top true k.st
+    simp only [Body.run]
+    unfold boundary
+    by_cases hrep : k.prev = some c.h
+    · split
+      · obtain ⟨rest, hr⟩ := saveToUndo_top true k.st
         exact ⟨by rw [hr]; simp, saveToUndo_true_redo k.st⟩
-    refine ⟨?_, ?_⟩
-    · simp only [Body.run]
-      rw [botText_setBuf _ _ (Or.inl hne.1)]; exact hb1
-    · intro h _ _; exact hne
-  | undo n post =>
-    have hE : isEditH c.h = false := by rw [← hkind, hbody]; rfl
-    refine ⟨?_, ?_⟩
-    · simp only [Body.run]
-      rw [botText_setBuf _ _ (Or.inr (by rw [hbody] at hpost; exact hpost _)), botText_undoN]; exact hb1
-    · intro h hh hh2; simp at hh; subst hh; rw [hE] at hh2; cases hh2
-  | redo post =>
-    have hE : isEditH c.h = false := by rw [← hkind, hbody]; rfl
-    refine ⟨?_, ?_⟩
-    · simp only [Body.run]
-      rw [botText_setBuf _ _ (Or.inr (by rw [hbody] at hpost; exact hpost _)), botText_redo]; exact hb1
-    · intro h hh hh2; simp at hh; subst hh; rw [hE] at hh2; cases hh2
-  | save cl =>
-    have hE : isEditH c.h = false := by rw [← hkind, hbody]; rfl
-    refine ⟨?_, ?_⟩
-    · simp only [Body.run]; rw [botText_saveToUndo]; exact hb1
-    · intro h hh hh2; simp at hh; subst hh; rw [hE] at hh2; cases hh2
+      · exact hI c.h hrep hE
+    · have : c.rule (decide (k.prev = some c.h)) = true := by simp [hrep, hsaves hE]
+      rw [if_pos this]
+      obtain ⟨rest, hr⟩ := saveToUndo_top true k.st
+      exact ⟨by rw [hr]; simp, saveToUndo_true_redo k.st⟩
+  | undo n post => rw [hbody] at hkind; rw [← hkind] at hE; cases hE
+  | redo post => rw [hbody] at hkind; rw [← hkind] at hE; cases hE
+  | save cl => rw [hbody] at hkind; rw [← hkind] at hE; cases hE
+  | reset d => rw [hbody] at hkind; rw [← hkind] at hE; cases hE
+  | roUndo fx post => rw [hbody] at hkind; rw [← hkind] at hE; cases hE
+  | roRedo fx => rw [hbody] at hkind; rw [← hkind] at hE; cases hE
 
-theorem sinv_run (rule : Nat → Bool → Bool) (isEditH : Nat → Bool) (t0 : Text) (cmds : List Cmd)
-    (k : KSt) (hwf : WF rule isEditH cmds) (hI : SInv isEditH t0 k) :
-    SInv isEditH t0 (runK rule cmds k) := by
-  induction cmds generalizing k with
-  | nil => exact hI
-  | cons c cs ih =>
-    have hwf' : WF rule isEditH cs :=
-      ⟨hwf.saves, fun c' hc' => hwf.kind c' (List.mem_cons_of_mem _ hc'),
-       fun c' hc' => hwf.post c' (List.mem_cons_of_mem _ hc')⟩
-    exact ih _ hwf' (sinv_step rule isEditH t0 k c hwf.saves (hwf.kind c (by simp))
-      (hwf.post c (by simp)) hI)
+theorem pinv_stepI (isEditH : Nat → Bool) (k : KSt) (it : Item)
+    (hsaves : ∀ c, it = .cmd c → isEditH c.h = true → c.rule false = true)
+    (hkind : ∀ c, it = .cmd c → c.body.isEdit = isEditH c.h) (hI : PInv isEditH k) :
+    PInv isEditH (stepI k it) := by
+  cases it with
+  | cmd c => exact pinv_step isEditH k c (hsaves c rfl) (hkind c rfl) hI
+  | kpReset => intro h hh; simp [stepI, kpReset] at hh
+  | cpr => exact hI
+  | ext f => exact hI
 
-theorem sinv_init (isEditH : Nat → Bool) (b0 : Buf) : SInv isEditH b0.text (kInit b0) := by
-  simp [SInv, kInit, reset, botText]
+theorem wf_tail {isEditH : Nat → Bool} {it : Item} {its : List Item} (h : WF isEditH (it :: its)) :
+    WF isEditH its :=
+  ⟨fun c hc => h.saves c (List.mem_cons_of_mem _ hc), fun c hc => h.kind c (List.mem_cons_of_mem _ hc),
+   fun c hc => h.post c (List.mem_cons_of_mem _ hc), fun c hc => h.noReset c (List.mem_cons_of_mem _ hc),
+   fun c hc => h.roFixed c (List.mem_cons_of_mem _ hc)⟩
+
+/-- **Theorem B.**  A statically well-formed session (with covered external edits) is disciplined. -/
+theorem wf_disciplined (isEditH : Nat → Bool) (items : List Item) (k : KSt) (hwf : WF isEditH items)
+    (hext : ExtOK items k) (hI : PInv isEditH k) :
+    Disciplined items k ∧ PInv isEditH (runI items k) := by
+  induction items generalizing k with
+  | nil => exact ⟨trivial, hI⟩
+  | cons it its ih =>
+    obtain ⟨he1, he2⟩ := hext
+    have hstep : PInv isEditH (stepI k it) :=
+      pinv_stepI isEditH k it (fun c hc => hwf.saves c (by rw [hc]; simp))
+        (fun c hc => hwf.kind c (by rw [hc]; simp)) hI
+    obtain ⟨hd, hp⟩ := ih (stepI k it) (wf_tail hwf) he2 hstep
+    refine ⟨⟨?_, hd⟩, hp⟩
+    cases it with
+    | kpReset => trivial
+    | cpr => trivial
+    | ext f => exact he1
+    | cmd c =>
+      have hk := hwf.kind c (by simp)
+      have hpost := hwf.post c (by simp)
+      have hnr := hwf.noReset c (by simp)
+      have hro := hwf.roFixed c (by simp)
+      simp only [Item.Covered, Cmd.Covered]
+      cases hbody : c.body with
+      | edit f =>
+        have hE : isEditH c.h = true := by rw [← hk, hbody]; rfl
+        by_cases hrep : k.prev = some c.h
+        · right; left; exact hI c.h hrep hE
+        · left; simp [hrep, hwf.saves c (by simp) hE]
+      | undo n post => rw [hbody] at hpost; exact hpost
+      | redo post => rw [hbody] at hpost; exact hpost
+      | save cl => trivial
+      | reset d => rw [hbody] at hnr; cases hnr
+      | roUndo fx post => rw [hbody] at hpost hro; exact ⟨hro, hpost⟩
+      | roRedo fx => rw [hbody] at hro; exact hro
+
+theorem pinv_init (isEditH : Nat → Bool) (b0 : Buf) : PInv isEditH (kInit b0) := by
+  intro h hh; simp [kInit] at hh
 
 theorem repeat_step (h : Nat) (rule : Bool → Bool) (g : Buf → Buf) (k : KSt)
     (hp : k.prev = some h) (hr1 : rule true = false) :
@@ -482,5 +639,53 @@ theorem adj_redo (s : St) (h : AdjDistinct s.undo) : AdjDistinct (redo s).undo :
   cases s.redo with
   | nil => exact h
   | cons r rest => exact adj_saveToUndo false s h
+
+theorem vinv_undoRO (fx : Bool) (s : St) (h : VInv s) : VInv (undoRO fx s) := by
+  unfold undoRO
+  split
+  · exact h
+  · obtain ⟨hb, hu, hr⟩ := h
+    cases hl : undoLoop s.buf s.undo with
+    | none => exact ⟨hb, by simp, hr⟩
+    | some p =>
+      obtain ⟨t, rest⟩ := p
+      have hs := undoLoop_sublist hl
+      refine ⟨hb, fun u hu' => hu u (hs.subset (List.mem_cons_of_mem _ hu')), ?_⟩
+      intro r hr'
+      rcases List.mem_cons.mp hr' with rfl | hr'
+      · exact hb
+      · exact hr r hr'
+
+theorem vinv_redoRO (fx : Bool) (s : St) (h : VInv s) : VInv (redoRO fx s) := by
+  unfold redoRO
+  split
+  · exact h
+  · cases hr : s.redo with
+    | nil => exact h
+    | cons r rest =>
+      have hs := vinv_save false s h
+      obtain ⟨hb, _, hr'⟩ := h
+      rw [hr] at hr'
+      exact ⟨hb, hs.2.1, fun x hx => hr' x (List.mem_cons_of_mem _ hx)⟩
+
+theorem adj_undoRO (fx : Bool) (s : St) (h : AdjDistinct s.undo) : AdjDistinct (undoRO fx s).undo := by
+  unfold undoRO
+  split
+  · exact h
+  · cases hl : undoLoop s.buf s.undo with
+    | none => trivial
+    | some p =>
+      obtain ⟨t, rest⟩ := p
+      obtain ⟨pre, h1, _, _⟩ := undoLoop_some hl
+      rw [h1] at h
+      exact adj_tail (adj_suffix h)
+
+theorem adj_redoRO (fx : Bool) (s : St) (h : AdjDistinct s.undo) : AdjDistinct (redoRO fx s).undo := by
+  unfold redoRO
+  split
+  · exact h
+  · cases s.redo with
+    | nil => exact h
+    | cons r rest => exact adj_saveToUndo false s h
 
 end Ptk.C07
